@@ -29,22 +29,22 @@ LEVEL = "model_checking"
 TAU, TD, TR = 2.0, 4.0, 1.0
 
 
-def syn_ctor(kind, dt, mode="previous"):
+def syn_ctor(kind, dt, mode="previous", tol=0.0):
     if kind == "delta":
-        return DeltaCurrent.partialconstructor(spike_charge=dt, interp_mode=mode)
+        return DeltaCurrent.partialconstructor(spike_charge=dt, interp_mode=mode, interp_tol=tol)
     if kind == "deltaplus":
-        return DeltaPlusCurrent.partialconstructor(spike_charge=dt, interp_mode=mode)
+        return DeltaPlusCurrent.partialconstructor(spike_charge=dt, interp_mode=mode, interp_tol=tol)
     if kind == "exp":
-        return SingleExponentialCurrent.partialconstructor(spike_charge=2.0, time_constant=TAU, spike_interp_mode=mode)
-    return DoubleExponentialCurrent.partialconstructor(spike_charge=2.0, tc_decay=TD, tc_rise=TR, spike_interp_mode=mode)
+        return SingleExponentialCurrent.partialconstructor(spike_charge=2.0, time_constant=TAU, spike_interp_mode=mode, interp_tol=tol)
+    return DoubleExponentialCurrent.partialconstructor(spike_charge=2.0, tc_decay=TD, tc_rise=TR, spike_interp_mode=mode, interp_tol=tol)
 
 
 CONV_GEOM = {"conv": (1, 3, 1, 2), "conv22": (2, 3, 2, 2)}  # H, W, kH, kW (one channel)
 
 
-def build(conn, skind, dt, delay, B, Wt, Dt, mode="previous"):
+def build(conn, skind, dt, delay, B, Wt, Dt, mode="previous", tol=0.0):
     """delay=None -> undelayed. Wt/Dt tensors shaped like the connection's weight."""
-    kw = dict(synapse=syn_ctor(skind, dt, mode), delay=delay, batch_size=B, weight_init=lambda w: Wt.clone())
+    kw = dict(synapse=syn_ctor(skind, dt, mode, tol), delay=delay, batch_size=B, weight_init=lambda w: Wt.clone())
     if delay is not None:
         kw["delay_init"] = lambda d: Dt.clone()
     if conn == "dense":
@@ -107,7 +107,7 @@ def interp(skind, series, pos, neg, t, s, mode, dt):
     return at(pos, c) * math.exp(-el / TD) - at(neg, c) * math.exp(-el / TR)
 
 
-def shard(conn, skind, dt, maxk, fractional, T, F=2, only_assign=None, only_clear=()):
+def shard(conn, skind, dt, maxk, fractional, T, F=2, only_assign=None, only_clear=(), tol=0.0):
     tally = Tally()
     maxdelay = maxk * dt
     W = weight_for(conn, F)
@@ -126,7 +126,7 @@ def shard(conn, skind, dt, maxk, fractional, T, F=2, only_assign=None, only_clea
         x = torch.tensor([h[t] for h in hs], dtype=torch.bool)
         xs.append(x.reshape(B, 1, CONV_GEOM[conn][0], CONV_GEOM[conn][1]) if isconv else x)
     cfg = {"conn": conn, "synapse": skind, "dt": dt, "max_delay": maxdelay, "maxk": maxk, "fractional": fractional, "T": T, "F": F,
-           "batch=histories": B}
+           "batch=histories": B, "interp_tol": tol}
     mode = "previous"
     for assign in itertools.product(alphabet, repeat=len(pos)):
         if only_assign is not None and list(assign) != list(only_assign):
@@ -140,8 +140,8 @@ def shard(conn, skind, dt, maxk, fractional, T, F=2, only_assign=None, only_clea
             case = {**cfg, "delays_in_steps": list(assign), "clear_before_step": clear_at}
             tally.add("evaluations")
             try:
-                cd = build(conn, skind, dt, maxdelay, B, W, D, mode)
-                cu = build(conn, skind, dt, None, B, W, D, mode)
+                cd = build(conn, skind, dt, maxdelay, B, W, D, mode, tol)
+                cu = build(conn, skind, dt, None, B, W, D, mode, tol)
             except Exception as ex:
                 tally.violation(f"exception:construct:{conn}:{skind}:{type(ex).__name__}", case, repr(ex))
                 return tally
@@ -261,6 +261,10 @@ def run(rep):
                         jobs.append((shard, (conn, skind, dt, 2 if not quick else 1, True, T, 1)))
                     elif not quick:
                         jobs.append((shard, (conn, skind, dt, 1, True, T, 2)))
+    # delays of three steps at the non-representable step time 1.3 (float32(3*1.3) != 3*float32(1.3)): defined only with a
+    # tolerance that dominates rounding, which the synapse then has to honour for currents AND spikes
+    for skind in ("delta", "exp"):
+        jobs.append((shard, ("direct", skind, 1.3, 3, False, T + 1, 2, None, (), 1e-6)))
     # a 2x2 kernel: row/column order of the per-kernel-element delays matters (2x3 input, 64 input letters -> shorter histories)
     for skind in ("delta", "exp") if quick else ("delta", "deltaplus", "exp", "dexp"):
         jobs.append((shard, ("conv22", skind, 1.0, 1 if quick else 2, False, 2, 1)))
@@ -291,5 +295,5 @@ def run(rep):
 
 def replay(case):
     t = shard(case["conn"], case["synapse"], case["dt"], case["maxk"], case["fractional"], case["T"], case.get("F", 2),
-              only_assign=case["delays_in_steps"], only_clear=case["clear_before_step"])
+              only_assign=case["delays_in_steps"], only_clear=case["clear_before_step"], tol=case.get("interp_tol", 0.0))
     return {"violations": [[v["key"], v["message"]] for v in t.violations]}
